@@ -522,8 +522,9 @@ class Engine:
             first, last = con.slice
             heads = [ast.get_source_segment(src, st_).split('\n')[0] for st_ in node.body]
             i0 = [i for i, h in enumerate(heads) if first in h]
-            i1 = [i for i, h in enumerate(heads) if last in h]
-            if len(i0) != 1 or len(i1) != 1 or i1[0] < i0[0]:
+            # last: header text of the final statement, or an int n = "the n statements starting at `first`"
+            i1 = [i0[0] + last - 1] if (isinstance(last, int) and len(i0) == 1) else [i for i, h in enumerate(heads) if not isinstance(last, int) and last in h]
+            if len(i0) != 1 or len(i1) != 1 or i1[0] < i0[0] or i1[0] >= len(node.body):
                 raise Unsupported('%s: statement slice %r .. %r not found exactly once among the top-level statements' % (qualname, first, last))
             body = node.body[i0[0]:i1[0] + 1]
             params = [p_ for p_ in con.params if not p_.startswith('$')]
@@ -652,7 +653,7 @@ class Engine:
             elif isinstance(n, (ast.For, ast.AsyncFor)):
                 store(n.target, n.lineno)
             elif isinstance(n, ast.withitem) and n.optional_vars is not None:
-                store(n.optional_vars, n.lineno)
+                store(n.optional_vars, getattr(n.optional_vars, 'lineno', 0))
             elif isinstance(n, ast.NamedExpr):
                 store(n.target, n.lineno)
             elif isinstance(n, ast.Delete):
